@@ -183,7 +183,10 @@ def glue_expect(ctx, art, line):
         return "ok code=68 delivered=%d" % body if szx <= 6 else "err"
     if f[0] == "bert":
         rc, out, _ = common.pipe_lines([art["driver"], "spec"], ["buf 7 %s" % f[1]])
-        return "first %s" % out[0] if rc == 0 and out else None
+        if rc != 0 or not out or not out[0].isdigit():
+            return None
+        # the first block carries min(body, BERT buffer for the local maximum message size) bytes
+        return "first %d" % min(int(out[0]), int(f[3]))
     return None
 
 
